@@ -467,6 +467,7 @@ def shrink(trace, prop, clause):
 
 
 def chunk(payload):
+    core.TIER = payload.get('tier', 'quick')
     """worker: run a list of seeds, return an Agg"""
     prop, seeds, quarantine = payload['prop'], payload['seeds'], payload['quarantine']
     agg = core.Agg()
